@@ -597,7 +597,39 @@ func genC17(c *lp.Ctx) {
 }
 
 // genC20: build and load neither modify nor alias caller-owned memory.
+// genC20shortValues: values handed to NewSlimTrie as slices of one shared buffer, some SHORTER than the fixed size
+// of their encoder (encode.Bytes{Size}).  Such values are outside the encoder's domain for lookups (Decode reads
+// Size bytes), so only the build is asked for: it must not touch the caller's buffer.
+func genC20shortValues(c *lp.Ctx) {
+	for it := 0; it < c.Pick(60, 300); it++ {
+		ks := gen.Any(c.Rng, c.Pick(40, 200))
+		if len(ks.Keys) < 2 {
+			continue
+		}
+		w := 2 + c.Rng.Intn(7)
+		cs := NewCase(c.Rng, ks, "", fmt.Sprintf("bytes%d", w))
+		short := 0
+		for i := range cs.Vals {
+			if i+1 < len(cs.Vals) && c.Rng.Intn(3) == 0 {
+				cs.Vals[i] = cs.Vals[i][:c.Rng.Intn(w)]
+				short++
+			}
+		}
+		if short == 0 {
+			continue
+		}
+		c.Hit("short-values-from-shared-buffer")
+		c.Case(cs.Key()+"/short", true)
+		line := strings.Replace(cs.Line(), "trie.new", "trie.new-checked", 1)
+		if a := c.Do(line); a != "ok inputs-unchanged" && !strings.HasPrefix(a, "err:") {
+			cs.viol(c, "building must not modify the caller's value memory (values sliced from one buffer, some shorter than the encoder's size)",
+				line, "ok inputs-unchanged", a)
+		}
+	}
+}
+
 func genC20(c *lp.Ctx) {
+	genC20shortValues(c)
 	n := c.Pick(200, 700)
 	size := c.Pick(150, 800)
 	var prevBuf []byte
